@@ -373,6 +373,7 @@ class C04(Check):
         ctx.phase(self.corr_malformed, ctx, rng, sheets)
         ctx.phase(self.corr_decl_blocks, ctx, rng)
         ctx.phase(self.corr_unknown, ctx, rng)
+        ctx.phase(self.oracle_selector_grammar, ctx, rng)
 
     def search(self, ctx):
         """an obligation or the correspondence broke and the quick oracle found nothing: the two
@@ -520,9 +521,16 @@ class C04(Check):
         if isinstance(orig, tuple):
             return
         # is the garbage really not a valid construct (for the implementation)?  decided on the garbage alone
-        residue = G.residue_of(g, where, parse_real)
+        # the namespaces the sheet declares are in effect for the garbage too
+        prelude = ''.join(G.NS_STMT.findall(text)) if g.kind == 'stmt:selector-grammar' else ''
+        residue = G.residue_of(g, where, parse_real, prelude)
         if residue is None:
             ctx.count('garbage-is-valid-construct')
+            return
+        if any(r[0] == 'style' for r in residue) and where == 'stmt':
+            # a rule the implementation accepts, placed before the first rule of the sheet: it legitimately ends
+            # the @import / @namespace section (and precedes the namespace declarations): no claim here
+            ctx.count('valid-rule-before-body')
             return
         # the damaged sheet must be the original with `residue` (the construct itself: e.g. one unknown rule,
         # comments inside the garbage) inserted at one place
@@ -556,6 +564,44 @@ class C04(Check):
                     ctx.violate('every rule and declaration complete before the truncation point is present, '
                                 'unchanged', w, {'truncated_dom': strip_proj(real), 'problem': miss},
                                 known=self.region(w))
+
+    # -- one rule with an invalid selector is dropped and nothing else ---------------------------------------
+    SEL_CONTEXTS = [('@namespace p "http://u/"; first{left:0} ', ' keep{top:0} @media print{m{right:0}}'),
+                    ('first{left:0} @media print{ ', ' keep{top:0}} last{bottom:0}')]
+
+    def oracle_selector_grammar(self, ctx, rng):
+        """selectors put together from every ordered pair of the selector grammar's pieces in every context
+        (top level, inside :not( ), [ ], a functional pseudo, with following tokens): the rule with that selector,
+        placed between intact rules, must not change anything but itself (implementation only)"""
+        cases = list(G.selector_cases())
+        n = ctx.n(6000, len(cases))
+        if n < len(cases):
+            cases = rng.sample(cases, n)
+        origs = [parse_real(a + b) for a, b in self.SEL_CONTEXTS]
+        for sel in cases:
+            k = rng.randrange(len(self.SEL_CONTEXTS))
+            pre, post = self.SEL_CONTEXTS[k]
+            rule = ' ' + sel + '{color:red} '
+            damaged = pre + rule + post
+            w = {'original': pre + post, 'offset': len(pre), 'where': 'stmt' if k == 0 else 'stmt-media',
+                 'garbage': rule, 'garbage_invalid': False, 'damaged': damaged, 'selector': sel}
+            real = parse_real(damaged)
+            ctx.case(key=('selgrammar', k, sel), nontrivial=True, kind='oracle:selector-grammar',
+                     sample={'selector': sel})
+            if isinstance(real, tuple):
+                ctx.violate('parsing the damaged sheet raised', w, real, known=self.region(w))
+                continue
+            g = G.Garbage(rule, 'stmt:selector-grammar')
+            prelude = '@namespace p "http://u/";' if k == 0 else ''
+            residue = G.residue_of(g, w['where'], parse_real, prelude)
+            if residue is None:
+                ctx.count('selector-grammar:not-a-rule')
+                continue
+            ctx.count('selector-grammar:%s' % ('kept' if residue else 'dropped'))
+            if not G.equal_apart_from(strip_proj(real), strip_proj(origs[k]), strip_proj(residue)):
+                ctx.violate('DOM of the damaged sheet = DOM of the original apart from the damaged construct',
+                            w, {'damaged_dom': strip_proj(real), 'original_dom': strip_proj(origs[k]),
+                                'construct_alone': strip_proj(residue)}, known=self.region(w))
 
     # -- malformed stream (correspondence only) -----------------------------------------------------------
     def corr_malformed(self, ctx, rng, sheets):
@@ -652,7 +698,8 @@ class C04(Check):
     def replay(self, ctx, data):
         w = data.get('witness') or {}
         if 'damaged' in w and 'garbage' in w:
-            g = G.Garbage(w['garbage'], 'replay', w.get('garbage_invalid', False))
+            g = G.Garbage(w['garbage'], 'stmt:selector-grammar' if 'selector' in w else 'replay',
+                          w.get('garbage_invalid', False))
             reals = self.check_sheets(ctx, [w['original'], w['damaged']], 'replay')
             self.judge_injection(ctx, w['original'], w['offset'], w['where'], g, reals[0], reals[1])
         elif 'truncated' in w:
